@@ -79,6 +79,14 @@ impl WrappedWrite {
     pub async fn send<D: WireVal>(self, maindevice: &MainDevice, data: D) -> (r: Result<(), Error>)
         ensures r is Ok ==> reg_sent(self.command, data.val())
     { unimplemented!() }
+    /// `send` with a ghost log threaded through (R24): the same exchange; when it succeeds the log gains (address, register, value)
+    #[verifier::external_body]
+    pub async fn send_logged<D: WireVal>(self, log: &mut Ghost<Seq<(u16, u16, int)>>, maindevice: &MainDevice, data: D) -> (r: Result<(), Error>)
+        ensures
+            r is Ok ==> reg_sent(self.command, data.val())
+                && exists|a: u16, g: u16| self.command == (Writes::Fpwr { address: a, register: g }) && final(log)@ == old(log)@.push((a, g, data.val())),
+            r is Err ==> final(log)@ == old(log)@,
+    { unimplemented!() }
 }
 
 /// a group member as handed out by `group.iter(maindevice)` (SubDeviceRef<&SubDevice>)
@@ -156,7 +164,24 @@ pub open spec fn dc_programmed(d: DcDev, t: u64, dl: int, p: int) -> bool {
         }
 }
 
-/*@fragment file=src/subdevice_group/mod.rs impl="impl<const MAX_SUBDEVICES: usize, const MAX_PDI: usize, R: RawRwLock, S, DC> SubDeviceGroup<MAX_SUBDEVICES, MAX_PDI, R, S, DC>" fn=configure_dc_sync from="let dc_devices = self_.iter(maindevice)" to=".send(maindevice, flags) .await?; }" name=dc_sync_program qual="pub async" sig="self_: &DcGrp, maindevice: &MainDevice, reference: u16, start_delay: Duration, sync0_period: Duration -> (r: Result<u64, Error>)" tail="Ok(sync0_period)" subst="SubDeviceRef::new(maindevice, reference, ()) .register_read::<u64>(=>ref_dev(maindevice, reference).register_read_u64(@@u32::try_from(=>u32_try_from(@@u64::try_from(=>u64_try_from(" props=C18 attr="#[verifier::loop_isolation(false)]"
+/// the SYNC0 start time every configured device gets: (reference time + delay) rounded DOWN to a whole number of cycles
+pub open spec fn start_of(t: u64, dl: int, p: int) -> int { ((t + dl) / p) * p }
+/// the register writes ONE configured device receives, in order: cyclic operation off, start time, SYNC0 cycle, (SYNC1 cycle), activation
+pub open spec fn dev_log(d: DcDev, t: u64, dl: int, p: int) -> Seq<(u16, u16, int)> {
+    let a = d.configured_address;
+    let head = seq![(a, 0x0981u16, 0int), (a, 0x0990u16, start_of(t, dl, p)), (a, 0x09a0u16, p)];
+    match d.dc_sync {
+        DcSync::Sync01 { sync1_period } => head.push((a, 0x09a4u16, sync1_period.ns@ as int)).push((a, 0x0981u16, 0x07int)),
+        _ => head.push((a, 0x0981u16, 0x03int)),
+    }
+}
+pub open spec fn devs_log(ds: Seq<DcDev>, t: u64, dl: int, p: int) -> Seq<(u16, u16, int)>
+    decreases ds.len()
+{
+    if ds.len() == 0 { Seq::empty() } else { devs_log(ds.drop_last(), t, dl, p) + dev_log(ds.last(), t, dl, p) }
+}
+
+/*@fragment file=src/subdevice_group/mod.rs impl="impl<const MAX_SUBDEVICES: usize, const MAX_PDI: usize, R: RawRwLock, S, DC> SubDeviceGroup<MAX_SUBDEVICES, MAX_PDI, R, S, DC>" fn=configure_dc_sync from="let dc_devices = self_.iter(maindevice)" to=".send(maindevice, flags) .await?; }" name=dc_sync_program qual="pub async" sig="self_: &DcGrp, maindevice: &MainDevice, reference: u16, start_delay: Duration, sync0_period: Duration, log: &mut Ghost<Seq<(u16, u16, int)>> -> (r: Result<u64, Error>)" tail="Ok(sync0_period)" subst=".send(maindevice,=>.send_logged(log, maindevice,@@SubDeviceRef::new(maindevice, reference, ()) .register_read::<u64>(=>ref_dev(maindevice, reference).register_read_u64(@@u32::try_from(=>u32_try_from(@@u64::try_from(=>u64_try_from(" props=C18 attr="#[verifier::loop_isolation(false)]"
     requires
         sync0_period.ns@ >= 1,                       // a zero period is outside the property's quantifier (it divides by zero)
     ensures
@@ -167,6 +192,9 @@ pub open spec fn dc_programmed(d: DcDev, t: u64, dl: int, p: int) -> bool {
         r is Ok ==> r->Ok_0 == sync0_period.ns@ && exists|t: u64| #[trigger] ref_time_read(reference, t)
             && forall|i: int| 0 <= i < self_.devs@.len() && wants_dc(self_.devs@[i]) ==>
                     #[trigger] dc_programmed(self_.devs@[i], t, start_delay.ns@ as int, sync0_period.ns@ as int),
+        // ORDER and "no other write": everything this call wrote is, device after device in group order, exactly dev_log(..)
+        r is Ok ==> exists|t: u64| #[trigger] ref_time_read(reference, t)
+            && final(log)@ == old(log)@ + devs_log(self_.devs@.filter(|d: DcDev| wants_dc(d)), t, start_delay.ns@ as int, sync0_period.ns@ as int),
 @closure 0 "|subdevice: &DcDev| -> (cb: bool)"
     ensures cb == wants_dc(*subdevice)
 @entry
@@ -180,6 +208,7 @@ pub open spec fn dc_programmed(d: DcDev, t: u64, dl: int, p: int) -> bool {
         __it0.rest@.len() <= want.len(),
         __it0.rest@ =~= want.skip(want.len() - __it0.rest@.len()),
         forall|i: int| 0 <= i < want.len() - __it0.rest@.len() ==> #[trigger] dc_programmed(want[i], system_time, dl0, p0),
+        log@ =~= old(log)@ + devs_log(want.subrange(0, want.len() - __it0.rest@.len()), system_time, dl0, p0),
     decreases __it0.rest@.len()
 @before "let start_time ="
     proof {
@@ -192,6 +221,8 @@ pub open spec fn dc_programmed(d: DcDev, t: u64, dl: int, p: int) -> bool {
         assert(0 <= x / p) by { lemma_div_pos_is_pos(x, p); }
         assert((x / p) * p <= x);
     }
+@loop_start 0
+    let ghost log_iter = log@;
 @loop_end 0
     proof {
         let k = want.len() - __it0.rest@.len() - 1;
@@ -200,9 +231,15 @@ pub open spec fn dc_programmed(d: DcDev, t: u64, dl: int, p: int) -> bool {
         assert((2u8 | 1u8) == 3u8) by (bit_vector);
         assert(reg_sent(Writes::Fpwr { address: subdevice.configured_address, register: 0x0990 }, start_time as int));
         assert(dc_programmed(want[k], system_time, dl0, p0));
+        assert(start_time as int == start_of(system_time, dl0, p0));
+        assert(want.subrange(0, k + 1).drop_last() =~= want.subrange(0, k));
+        assert(want.subrange(0, k + 1).last() == want[k]);
+        assert(devs_log(want.subrange(0, k + 1), system_time, dl0, p0) == devs_log(want.subrange(0, k), system_time, dl0, p0) + dev_log(want[k], system_time, dl0, p0));
+        assert(log@ =~= log_iter + dev_log(want[k], system_time, dl0, p0));
     }
 @after_loop 0
     proof {
+        assert(want.subrange(0, want.len() as int) =~= want);
         assert forall|i: int| 0 <= i < self_.devs@.len() && wants_dc(self_.devs@[i]) implies
             #[trigger] dc_programmed(self_.devs@[i], system_time, dl0, p0) by {
             let d = self_.devs@[i];
